@@ -16,6 +16,7 @@ where
         else { exists|e: int| self.from_to(e, a, b) || self.from_to(e, b, a) }
     }
     /// the neighbour sequences are exactly the matching part of the edge set
+#[verifier::spinoff_prover]
     pub proof fn lemma_nbrs_contains(&self, a: int, k: int, b: NodeIndex<Ix>)
         requires self.wf(), nlive(self.ns(), a), 0 <= k < 2
         ensures self.nbrs_of(a, k).contains(b) <==> self.joined(a, b.i(), k)
